@@ -685,16 +685,17 @@ int main(int argc, char** argv) {
   size_t n = strtoull(argv[1], 0, 10); uint64_t a0 = strtoull(argv[2], 0, 10), a1 = strtoull(argv[3], 0, 10);
   size_t m = strtoull(argv[4], 0, 10); int pnull = atoi(argv[5]); int qalloc = atoi(argv[6]);
   // exact-size heap blocks so that ASan sees any access beyond the buffer (size 0 -> malloc(0) redzone)
-  unsigned char* p = pnull ? nullptr : (unsigned char*)malloc(n);
-  unsigned char* q = qalloc ? (unsigned char*)malloc(m) : nullptr;
-  int ai = 7;
-  for (size_t i = 0; i < n && p; ++i) p[i] = (unsigned char)strtoul(argv[ai++], 0, 16);
-  for (size_t i = 0; i < m && q; ++i) q[i] = (unsigned char)strtoul(argv[ai++], 0, 16);
-  uint64_t r = %(NAME)s(p, n, a0, a1, q, qalloc ? m : (size_t)strtoull(argv[4], 0, 10));
+  // argv[7], argv[8]: raw pointer values used when a pointer parameter is not a buffer (wrappers that read it as an integer)
+  unsigned char* p = pnull == 2 ? (unsigned char*)(uintptr_t)strtoull(argv[7], 0, 10) : pnull ? nullptr : (unsigned char*)malloc(n);
+  unsigned char* q = qalloc == 2 ? (unsigned char*)(uintptr_t)strtoull(argv[8], 0, 10) : qalloc ? (unsigned char*)malloc(m) : nullptr;
+  int ai = 9;
+  for (size_t i = 0; i < n && p && pnull == 0; ++i) p[i] = (unsigned char)strtoul(argv[ai++], 0, 16);
+  for (size_t i = 0; i < m && q && qalloc == 1; ++i) q[i] = (unsigned char)strtoul(argv[ai++], 0, 16);
+  uint64_t r = %(NAME)s(p, n, a0, a1, q, m);
   printf("ret %%llu\n", (unsigned long long)r);
   printf("obs"); for (int i = 0; i < 64; ++i) if (g_set[i]) printf(" %%d=%%llu", i, (unsigned long long)g_obs[i]); printf("\n");
-  printf("p"); for (size_t i = 0; i < n && p; ++i) printf(" %%02x", p[i]); printf("\n");
-  printf("q"); for (size_t i = 0; i < m && q; ++i) printf(" %%02x", q[i]); printf("\n");
+  printf("p"); for (size_t i = 0; i < n && p && pnull == 0; ++i) printf(" %%02x", p[i]); printf("\n");
+  printf("q"); for (size_t i = 0; i < m && q && qalloc == 1; ++i) printf(" %%02x", q[i]); printf("\n");
   return 0;
 }
 '''
@@ -716,12 +717,14 @@ def native_run(includes, name, body, inputs, preamble="", include_dirs=(), extra
         r = subprocess.run(cmd, capture_output=True, text=True)
         if r.returncode != 0:
             return {"error": "native compile failed: " + r.stderr[-1500:]}
-        pb = inputs.get("pbytes") or []
+        pb = inputs.get("pbytes")
         qb = inputs.get("qbytes")
-        qalloc = qb is not None
-        argv = [exe, str(len(pb)), str(inputs["a0"]), str(inputs["a1"]), str(len(qb) if qalloc else inputs["m"]),
-                "1" if inputs.get("p") == 0 else "0", "1" if qalloc else "0"]
-        argv += ["%02x" % b for b in pb] + ["%02x" % b for b in (qb or [])]
+        # a pointer parameter is a buffer (exact-size heap block), null, or - for wrappers that only read it as a number - a raw value
+        pmode = "2" if pb is None and inputs.get("p") else ("1" if inputs.get("p") == 0 or pb is None else "0")
+        qmode = "1" if qb is not None else ("2" if inputs.get("q") else "0")
+        argv = [exe, str(len(pb) if pb is not None and pmode == "0" else inputs["n"]), str(inputs["a0"]), str(inputs["a1"]),
+                str(len(qb) if qb is not None else inputs["m"]), pmode, qmode, str(inputs.get("p", 0)), str(inputs.get("q", 0))]
+        argv += ["%02x" % b for b in (pb or [])] * (pmode == "0") + ["%02x" % b for b in (qb or [])]
         env = dict(os.environ, ASAN_OPTIONS="detect_leaks=0:abort_on_error=0", UBSAN_OPTIONS="print_stacktrace=0")
         rr = subprocess.run(argv, capture_output=True, text=True, env=env, timeout=60)
         res = {"exit": rr.returncode, "stderr": rr.stderr[-1500:]}
@@ -737,3 +740,126 @@ def native_run(includes, name, body, inputs, preamble="", include_dirs=(), extra
     finally:
         import shutil
         shutil.rmtree(d, ignore_errors=True)
+
+
+# -- engine self-validation: llvc's evaluation of the IR vs native execution ---------------------------
+
+
+def concrete_eval(mod, fname, contract, params, inputs, unroll=0, div_fresh=False):
+    """Evaluates wrapper `fname` on concrete inputs with the encoder's semantics: returns dict(ret, obs, p, q) or
+    dict(trap=...) when a safety obligation is violated on these inputs."""
+    fn = mod.functions[fname]
+    k = K()
+    contract(k, **params)
+    if k.trip_loop is not None or k.cut_inv is not None:
+        return {"skip": "loop-split / cut contracts are not evaluated concretely"}
+    e = enc.Encoder(mod, unroll=unroll)
+    e.externals = dict(getattr(contract, "externals", {}))
+    e.externals["vprobe"] = _probe
+    e.externals["vcstr"] = _cstr_probe
+    e.probes, e.cstrs = {}, {}
+    e.regions = list(k.regions.values())
+    e.div_fresh = div_fresh
+
+    def ptr_arg(name, numeric_term):
+        if name in k.regions:
+            return enc.Ptr(k.regions[name], enc.bv(0, 64))
+        return enc.Ptr(None, numeric_term)
+    args = [ptr_arg("p", k.p), k.n, k.a0, k.a1, ptr_arg("q", k.q), k.m]
+    rv, mem_out, rc = e.encode(fn, args, {"p": k.P0, "q": k.Q0})
+    s = z3.Solver()
+    s.set("timeout", 60000)
+    for a in e.assumptions:
+        s.add(a)
+    pb, qb = inputs.get("pbytes") or [], inputs.get("qbytes") or []
+    s.add(k.p == inputs["p"], k.n == len(pb) if inputs.get("pbytes") is not None else k.n == inputs["n"], k.a0 == inputs["a0"], k.a1 == inputs["a1"],
+          k.q == inputs["q"], k.m == (len(qb) if inputs.get("qbytes") is not None else inputs["m"]))
+    for i, b in enumerate(pb):
+        s.add(z3.Select(k.P0, enc.bv(i, 64)) == b)
+    for i, b in enumerate(qb):
+        s.add(z3.Select(k.Q0, enc.bv(i, 64)) == b)
+    if s.check() != z3.sat:
+        return {"skip": "inputs inconsistent with the engine's region assumptions"}
+    mdl = s.model()
+    for (nm, kind, cond) in e.safety:
+        if z3.is_true(mdl.eval(cond, model_completion=True)):
+            return {"trap": nm}
+    if rv is None:
+        rv = enc.bv(0, 64)
+    if z3.is_bool(rv):
+        rv = enc.b2bv(rv, 64)
+    out = {"ret": mdl.eval(rv, model_completion=True).as_long() if not z3.is_bool(rv) else None, "obs": {}}
+    for i, sites in e.probes.items():
+        for (c, v) in sites:
+            if z3.is_true(mdl.eval(c, model_completion=True)):
+                out["obs"][str(i)] = mdl.eval(v, model_completion=True).as_long()
+    if inputs.get("pbytes") is not None:
+        out["p"] = [mdl.eval(z3.Select(mem_out.get("p", k.P0), enc.bv(i, 64)), model_completion=True).as_long() for i in range(len(pb))]
+    return out
+
+
+def differential_job(job):
+    """One TU: for each wrapper, `job["trials"]` random inputs satisfying the contract's precondition are run natively
+    (ASan+UBSan) and through the engine's evaluation of the IR; every observable must agree.  Returns (tag, n_runs, mismatches)."""
+    import random
+    rng = random.Random(job.get("seed", 0))
+    text = PROLOGUE + "".join('#include "%s"\n' % h for h in job["includes"]) + job.get("preamble", "")
+    for (name, body, cref, params) in job["wrappers"]:
+        text += "W(%s) {\n%s\n}\n" % (name, body)
+    ll, d = compile_ll(text, job["tag"] + "_diff", job.get("flags", ()), job.get("include_dirs", ()))
+    mod = ir.parse_module(ll)
+    import shutil
+    shutil.rmtree(d, ignore_errors=True)
+    runs, bad = 0, []
+    for (name, body, cref, params) in job["wrappers"]:
+        mname, fnname = cref.split(":")
+        contract = getattr(importlib.import_module(mname), fnname)
+        k = K()
+        contract(k, **params)
+        for t in range(job.get("trials", 6)):
+            # a random model of the precondition: small buffers, random contents and scalars
+            s = z3.Solver()
+            s.set("timeout", 20000)
+            s.set("random_seed", rng.randrange(1 << 30))
+            for r_ in k.req:
+                s.add(r_)
+            npb, nqb = rng.randrange(0, 17), rng.randrange(0, 17)
+            s.add(z3.ULE(k.n, enc.bv(24, 64)), z3.ULE(k.m, enc.bv(24, 64)))
+            hint = [k.p != 0, k.q != 0, k.n == npb, k.m == nqb, k.a0 == rng.choice([rng.randrange(0, 70), rng.getrandbits(64)]), k.a1 == rng.getrandbits(rng.choice([3, 8, 16, 33, 64]))]
+            got = None
+            for drop in range(len(hint) + 1):
+                s.push()
+                for h_ in hint[:len(hint) - drop]:
+                    s.add(h_)
+                if s.check() == z3.sat:
+                    got = s.model()
+                    s.pop()
+                    break
+                s.pop()
+            if got is None:
+                continue
+            ev = lambda term: got.eval(term, model_completion=True).as_long()
+            inputs = {"p": ev(k.p), "n": ev(k.n), "a0": ev(k.a0), "a1": ev(k.a1), "q": ev(k.q), "m": ev(k.m)}
+            inputs["pbytes"] = [rng.getrandbits(8) if rng.random() < 0.8 else rng.choice([0, 0xff, 0x80, 0x99]) for _ in range(inputs["n"])] if "p" in k.regions and inputs["p"] else None
+            inputs["qbytes"] = [rng.getrandbits(8) for _ in range(inputs["m"])] if "q" in k.regions and inputs["q"] else None
+            if "p" in k.regions and not inputs["p"]:
+                inputs["p"] = 0
+            if "q" in k.regions and not inputs["q"]:
+                inputs["q"] = 0
+            sym = concrete_eval(mod, name, contract, params, inputs, unroll=job.get("unroll", 0), div_fresh=job.get("div_fresh", False))
+            if "skip" in sym:
+                continue
+            nat = native_run(job["includes"], name, body, inputs, preamble=job.get("preamble", ""), include_dirs=job.get("include_dirs", ()),
+                             extra_flags=[f for f in job.get("flags", ()) if f.startswith("-D")])
+            if "error" in nat:
+                bad.append({"wrapper": name, "error": nat["error"][-300:]})
+                break
+            runs += 1
+            if "trap" in sym:
+                if nat["exit"] == 0:
+                    bad.append({"wrapper": name, "inputs": inputs, "engine": sym, "native": "exit 0"})
+                continue
+            same = nat.get("exit") == 0 and nat.get("ret") == sym["ret"] and (nat.get("obs") or {}) == sym["obs"] and ("p" not in sym or not inputs.get("pbytes") or nat.get("p") == sym["p"])
+            if not same:
+                bad.append({"wrapper": name, "inputs": inputs, "engine": sym, "native": {x: nat.get(x) for x in ("exit", "ret", "obs", "p")}})
+    return (job["tag"], runs, bad[:3])
